@@ -60,6 +60,16 @@
          did not copy, such a compilation would modify caller state (CallerStateUntouched), the next
          compilation of the kept buffer would compile another network (HistoryIndependent), and a
          read-only container would make the in-place write raise (ContainerIndependent).
+     (L) interpreter-wide settings (resource limits): the recursion limit of the interpreter is process state like the
+         caches.  The graph traversals recurse once or more per operator in a chain, so a deep network (Needs[mo] = {"rec"})
+         compiles only under a raised limit.  An entry point has to establish what it needs itself (Establishes[e]; as
+         transcribed from vela.py all three do: main from --recursion-limit, default 4000, convert and convert_bytes
+         sys.setrecursionlimit(4000)).  One that did not would run with whatever an earlier call left behind: alone it fails
+         where the other entry points succeed ("efail", EntryPointIndependent), after a call that raised the limit it
+         succeeds (tainted, HistoryIndependent), after main(--recursion-limit <small>) (option "lowrec": a valid value under
+         which that shallow compilation is fine) it fails again.  env = the settings currently established.  (The harness
+         also records numpy's error state / print options, the warnings filters and the locale around every call: no entry
+         point is specified to touch them; a change is reported as drift.)
    The model checker enumerates, for every history over the alphabet, which doors are
    open at which step ("exposure"); those histories are the replay plan of the harness.
    The outcome of an exposed step is left open (it may still be the isolated result);
@@ -73,6 +83,8 @@ CONSTANTS Letters,    \* alphabet: set of [e |-> entry point, mo |-> name of a (
           Acc,        \* Acc[mo] accelerator of mo
           Opt,        \* Opt[mo] options of mo that write an additional file from process-wide state ("ddb")
           Mdl,        \* Mdl[mo] the model of mo (several mo differ in their options only)
+          Needs,      \* Needs[mo] interpreter-wide settings the compilation of mo needs ({"rec"}: a raised recursion limit)
+          Establishes, \* Establishes[e] the settings entry point e establishes itself before it compiles
           InPlace,    \* InPlace[mo]: a graph rewrite of this compilation writes into a constant of the input network in place
           ReaderCopies, \* the reader copies every constant out of the buffer it was handed
           MaxLen,     \* histories of length <= MaxLen
@@ -85,7 +97,7 @@ VARIABLES st,         \* [wcache, eqids, addrmap, debugdb, rng, cbuf]
 vars == <<st, hist, res>>
 
 Entries == {"main", "convert", "convert_bytes"}
-Boot == [wcache |-> {}, eqids |-> {}, addrmap |-> {}, debugdb |-> {}, rng |-> "boot", cbuf |-> {}]
+Boot == [wcache |-> {}, eqids |-> {}, addrmap |-> {}, debugdb |-> {}, rng |-> "boot", cbuf |-> {}, env |-> {}]
 
 (* ---- containers: how the model reaches the entry point ----------------------------
    file    main / convert: a path; the entry point reads the file into a buffer of its own
@@ -111,7 +123,7 @@ Wipe(S, what) == [wcache |-> IF "wcache" \in what THEN {} ELSE S.wcache,
                   eqids |-> IF "eqids" \in what THEN {} ELSE S.eqids,
                   addrmap |-> IF "addrmap" \in what THEN {} ELSE S.addrmap,
                   debugdb |-> IF "debugdb" \in what THEN {} ELSE S.debugdb,
-                  rng |-> S.rng, cbuf |-> S.cbuf]
+                  rng |-> S.rng, cbuf |-> S.cbuf, env |-> S.env]
 
 (* ---- what a compilation reads ------------------------------------------------
    S : state at the call, vk / wk : value keys and weight-cache keys of the compilation *)
@@ -122,7 +134,12 @@ Touched(S, vk, wk) == {<<"v", k>> : k \in vk} \cup {<<"w", c.k, c.own>> : c \in 
 StaleAddr(S, vk, wk) == {a \in S.addrmap : a.id \in Touched(S, vk, wk)}
 OtherAccel(S, wk, acc) == \E c \in StaleW(S, wk) : c.acc # acc
 (* p : the parameters of one compilation
-       [vk, wk, acc, opts, mdl, c, inplace]  (Par(l) for a letter of the alphabet, observed values in HistoryTrace) *)
+       [vk, wk, acc, opts, mdl, c, inplace, e, needs]  (Par(l) for a letter of the alphabet, observed values in HistoryTrace) *)
+(* the settings in force while p compiles: what the entry point establishes on top of what it finds; the command line
+   option "lowrec" sets a limit of the user's choosing that is too small for deep networks *)
+Avail(S, p) == IF "lowrec" \in p.opts THEN S.env \ {"rec"} ELSE S.env \cup Establishes[p.e]
+Unmet(S, p) == ~(p.needs \subseteq Avail(S, p))
+LeftBehind(S, p) == p.needs \subseteq Avail(S, p) /\ ~(p.needs \subseteq Avail(Boot, p))
 WritesInput(p) == ~ReaderCopies /\ p.inplace /\ p.c # "file"
 Expo(S, p) == [eq |-> p.vk \cap S.eqids,
                w |-> {c.k : c \in StaleW(S, p.wk)},
@@ -130,17 +147,19 @@ Expo(S, p) == [eq |-> p.vk \cap S.eqids,
                addr |-> {a.id : a \in StaleAddr(S, p.vk, p.wk)},
                rng |-> (~SeedsRng /\ S.rng # "boot"),
                ddb |-> ("ddb" \in p.opts /\ S.debugdb # {}),
-               buf |-> (Kept(p.c) /\ p.mdl \in S.cbuf)]
-Exposed(x) == x.w # {} \/ x.addr # {} \/ x.rng \/ x.ddb \/ x.buf
+               buf |-> (Kept(p.c) /\ p.mdl \in S.cbuf),
+               lim |-> LeftBehind(S, p)]
+Exposed(x) == x.w # {} \/ x.addr # {} \/ x.rng \/ x.ddb \/ x.buf \/ x.lim
 
 (* outcomes the design permits for a step with exposure x.  "ok" = the isolated result;
    "cfail": the in-place write of a rewrite lands in a read-only container and raises, whatever was compiled before *)
 AllowedKinds(S, p) ==
     LET x == Expo(S, p) IN
       IF WritesInput(p) /\ ~Writable(p.c) THEN {"cfail"}
-      ELSE {"ok"} \cup (IF x.w # {} \/ x.rng \/ x.ddb \/ x.buf THEN {"tainted"} ELSE {})
+      ELSE IF Unmet(S, p) THEN {"efail"}
+      ELSE {"ok"} \cup (IF x.w # {} \/ x.rng \/ x.ddb \/ x.buf \/ x.lim THEN {"tainted"} ELSE {})
                   \cup (IF x.addr # {} \/ x.xacc THEN {"fail"} ELSE {})
-Failed(kind) == kind \in {"fail", "cfail"}
+Failed(kind) == kind \in {"fail", "cfail", "efail"}
 (* the compilation modifies the object the caller handed in *)
 Wrote(p, kind) == WritesInput(p) /\ Writable(p.c) /\ kind # "cfail"
 
@@ -158,14 +177,15 @@ Post(S, n, e, mo, p, failed, seeded, wrote) ==
                 \cup {[id |-> <<"u", n>>, own |-> n]}
         full == [wcache |-> wc, eqids |-> S.eqids \cup vk, addrmap |-> am,
                  debugdb |-> S.debugdb \cup {n}, rng |-> IF seeded THEN mo ELSE S.rng,
-                 cbuf |-> S.cbuf \cup (IF wrote /\ Kept(p.c) THEN {p.mdl} ELSE {})]
+                 cbuf |-> S.cbuf \cup (IF wrote /\ Kept(p.c) THEN {p.mdl} ELSE {}),
+                 env |-> Avail(S, p)]
     IN IF failed THEN full ELSE Wipe(full, ClearedAtExit(e))
 
 (* ---- the design as a state machine over the alphabet ---------------------- *)
 Init == st = Boot /\ hist = <<>> /\ res = <<>>
 
 Par(l) == [vk |-> VK[l.mo], wk |-> WK[l.mo], acc |-> Acc[l.mo], opts |-> Opt[l.mo], mdl |-> Mdl[l.mo], c |-> l.c,
-           inplace |-> InPlace[l.mo]]
+           inplace |-> InPlace[l.mo], e |-> l.e, needs |-> Needs[l.mo]]
 Compile(l) ==
     /\ Len(hist) < MaxLen
     /\ LET n == Len(hist) + 1
@@ -189,6 +209,8 @@ NoFailureFromHistory == \A i \in DOMAIN res : res[i].kind # "fail"
 CallerStateUntouched == \A i \in DOMAIN res : ~res[i].wrote
 (* the result does not depend on the kind of bytes-like object the model arrives in *)
 ContainerIndependent == \A i \in DOMAIN res : res[i].kind # "cfail"
+(* the result does not depend on the entry point: every entry point establishes the interpreter-wide settings it needs *)
+EntryPointIndependent == \A i \in DOMAIN res : res[i].kind # "efail"
 (* the structural reason: no step reads anything an earlier step wrote *)
 NoExposure == \A i \in DOMAIN res : ~Exposed(res[i].expo)
 
@@ -206,12 +228,13 @@ TypeOK == /\ Len(hist) = Len(res) /\ Len(hist) <= MaxLen
           /\ st.cbuf \subseteq {Mdl[l.mo] : l \in Letters}
           /\ \A c \in st.wcache : c.own \in 1..MaxLen
           /\ st.debugdb \subseteq 1..MaxLen
+          /\ st.env \subseteq {"rec"}
 
 (* every visited state is printed: "PLAN|history|exposure class per step|kind per step".
    Class letters: W weight-cache door, A address door, X weights encoded for another accelerator, R rng,
-   D debug database written out, B kept caller buffer an earlier step wrote into. *)
+   D debug database written out, B kept caller buffer an earlier step wrote into, L a setting an earlier call left behind. *)
 Class(x, i) == (IF x.w # {} THEN "W" ELSE "") \o (IF x.xacc THEN "X" ELSE "") \o (IF x.addr # {} THEN "A" ELSE "")
-                 \o (IF x.rng THEN "R" ELSE "") \o (IF x.ddb THEN "D" ELSE "") \o (IF x.buf THEN "B" ELSE "")
+                 \o (IF x.rng THEN "R" ELSE "") \o (IF x.ddb THEN "D" ELSE "") \o (IF x.buf THEN "B" ELSE "") \o (IF x.lim THEN "L" ELSE "")
 LetterName(l) == l.e \o (IF l.c \in {"file", "ba"} THEN "" ELSE "/" \o l.c) \o ":" \o l.mo
 RECURSIVE Join(_, _)
 Join(q, sep) == IF q = <<>> THEN "" ELSE IF Len(q) = 1 THEN q[1] ELSE q[1] \o sep \o Join(Tail(q), sep)
